@@ -55,7 +55,19 @@ AMBIGUOUS = [
 
 @st.composite
 def configs(draw: Any) -> dict[str, Any]:
-    kind = draw(st.sampled_from(["template", "template", "specgen", "c07", "ambiguous"]))
+    kind = draw(st.sampled_from(["template", "template", "specgen", "c07", "ambiguous", "exists"]))
+    if kind == "exists":
+        # existential constraints that FAIL for several candidates, so that the search has failing parts to choose from
+        text = draw(st.sampled_from([
+            "<start> ::= <n> (',' <n>){2,5}\n<n> ::= <d>{1,2}\n<d> ::= '0' | '1' | '2' | '3' | '4' | '5' | '6' | '7' | '8' | '9'\nwhere exists <k> in <n>: int(<k>) == 77\n",
+            "<start> ::= <w>+\n<w> ::= <c> <c> ';'\n<c> ::= 'a' | 'b' | 'c'\nwhere any(str(k) == 'cc;' for k in *<w>)\nwhere len(str(<start>)) >= 12\n",
+            "<start> ::= <n> (',' <n>){3}\n<n> ::= <d>{2}\n<d> ::= '0' | '1' | '2' | '3' | '4' | '5' | '6' | '7' | '8' | '9'\nwhere exists <k> in <n>: int(<k>) > 95\nwhere exists <k> in <n>: int(<k>) < 4\n",
+        ]))
+        return {
+            "spec_text": text,
+            "settings": {"population_size": draw(st.sampled_from([5, 10])), "max_nodes": 40, "random_seed": draw(st.integers(0, 10**6))},
+            "gens": draw(st.integers(4, 10)), "desired": draw(st.integers(2, 5)), "words": [],
+        }
     if kind == "ambiguous":
         text, words = draw(st.sampled_from(AMBIGUOUS))
         return {
